@@ -47,6 +47,8 @@ pub enum Family {
     /// on inbound traffic, whatever the broker's CONNACK announces for the other direction
     C19C,
     C20,
+    /// C20 over a long simulated time: a live connection kept up for two hours of keep-alive periods
+    C20L,
 }
 
 impl Family {
@@ -78,6 +80,7 @@ impl Family {
             "C19W" => Family::C19W,
             "C19C" => Family::C19C,
             "C20" => Family::C20,
+            "C20L" => Family::C20L,
             _ => return None,
         })
     }
@@ -109,6 +112,7 @@ impl Family {
             Family::C19W => "C19W",
             Family::C19C => "C19C",
             Family::C20 => "C20",
+            Family::C20L => "C20L",
         }
     }
 }
@@ -140,6 +144,7 @@ pub const ALL_FAMILIES: &[Family] = &[
     Family::C19W,
     Family::C19C,
     Family::C20,
+    Family::C20L,
 ];
 
 pub fn generate(f: Family, ch: &mut Choices) -> Plan {
@@ -170,6 +175,7 @@ pub fn generate(f: Family, ch: &mut Choices) -> Plan {
         Family::C19W => gen_c19w(ch),
         Family::C19C => gen_c19c(ch),
         Family::C20 => gen_c20(ch),
+        Family::C20L => gen_c20l(ch),
     }
 }
 
@@ -2764,5 +2770,55 @@ fn gen_c06l(ch: &mut Choices) -> Plan {
     plan.max_steps = 6_000_000;
     plan.horizon_ms = 2_500;
     plan.tags.push(format!("long:{}:w{window}", C06L_SENDS));
+    plan
+}
+
+
+// ------------------------------------------------------------------------------------------
+// C20L: two simulated hours of a live connection (thousands of timer periods), then silence
+
+fn gen_c20l(ch: &mut Choices) -> Plan {
+    let role = pick_role(ch);
+    let ver = role.ver();
+    let mut plan = base_plan("C20L", role, ch);
+    plan.cut = Cut::All;
+    plan.p_immediate = 1000;
+    plan.cfg.disconnect_timeout_s = 1;
+    let ka = *ch.pick(&[1u16, 2, 3, 6]);
+    let total_ms: u64 = std::env::var("C20L_MS").ok().and_then(|s| s.parse().ok()).unwrap_or(7_200_000);
+    if role.is_server() {
+        plan.peer.connect.keep_alive = ka;
+        plan.tags.push("mode:keepalive".into());
+        // a packet every keep-alive period (well inside the 1.5 x limit), or twice per period; mostly PINGREQ,
+        // now and then a publish, some of them arriving in two pieces
+        let period = u64::from(ka) * *ch.pick(&[1000u64, 500]);
+        let mut t = 0u64;
+        let mut i = 0u32;
+        while t + period <= total_ms {
+            t += period;
+            i += 1;
+            let pkt = if i % 41 == 0 { Pkt::Publish(mk_publish(ver, ch, i, 0, None, 3)) } else { Pkt::PingReq };
+            let split = if i % 97 == 0 { Some((1usize, 300u64)) } else { None };
+            timed_packet(&mut plan.peer.script, pkt, ver, t, split);
+        }
+        plan.horizon_ms = t + 18_000;
+    } else {
+        // a client with a keep-alive: two hours of PINGREQs answered by the broker, a publish from the
+        // broker now and then
+        plan.cfg.client_keepalive_s = ka;
+        plan.peer.auto_ack = true;
+        plan.tags.push("mode:client-keepalive".into());
+        let mut t = 0u64;
+        let mut i = 0u32;
+        while t + 61_000 <= total_ms {
+            t += 61_000;
+            i += 1;
+            timed_packet(&mut plan.peer.script, Pkt::Publish(mk_publish(ver, ch, i, 0, None, 3)), ver, t, None);
+        }
+        plan.horizon_ms = total_ms;
+    }
+    plan.ending = Ending::Settle;
+    plan.max_steps = 2_000_000;
+    plan.tags.push("long:2h".into());
     plan
 }
